@@ -230,26 +230,30 @@ theorem total_split (s s1 : HtmlSt) (x r o1 : Bytes)
       rw [key, key2]
       simp [ledger, List.append_assoc]
 
-/-- every cut of the schedule is safe, seen from the state the stage is actually in when the chunk arrives -/
+/-- every cut of the schedule is safe, seen from the state the stage is actually in when the chunk arrives
+(nothing is required of the last chunk: it is followed by `end()`, not by a cut) -/
 def SafeRun (s : HtmlSt) : List Bytes → Prop
   | [] => True
-  | x :: rest =>
-    SafeCutT tk s.last x rest.flatten ∧
+  | [_] => True
+  | x :: y :: rest =>
+    SafeCutT tk s.last x (y :: rest).flatten ∧
       match filterHtml tk ev s x with
       | none => True
-      | some (s1, _) => SafeRun s1 rest
+      | some (s1, _) => SafeRun s1 (y :: rest)
 
 def safeRunB (s : HtmlSt) : List Bytes → Bool
   | [] => true
-  | x :: rest =>
-    safeCutTB tk s.last x rest.flatten &&
+  | [_] => true
+  | x :: y :: rest =>
+    safeCutTB tk s.last x (y :: rest).flatten &&
       match filterHtml tk ev s x with
       | none => true
-      | some (s1, _) => safeRunB s1 rest
+      | some (s1, _) => safeRunB s1 (y :: rest)
 
 theorem safeRunB_sound : ∀ (cs : List Bytes) (s : HtmlSt), safeRunB tk ev s cs = true → SafeRun tk ev s cs
   | [], _, _ => trivial
-  | x :: rest, s, h => by
+  | [_], _, _ => trivial
+  | x :: y :: rest, s, h => by
     simp only [safeRunB, Bool.and_eq_true] at h
     refine ⟨safeCutTB_sound tk _ _ _ h.1, ?_⟩
     cases hf : filterHtml tk ev s x with
@@ -258,7 +262,7 @@ theorem safeRunB_sound : ∀ (cs : List Bytes) (s : HtmlSt), safeRunB tk ev s cs
       obtain ⟨s1, o1⟩ := r
       have := h.2
       rw [hf] at this
-      exact safeRunB_sound rest s1 this
+      exact safeRunB_sound (y :: rest) s1 this
 
 /-- **Chunk invariance of the html stage (total output) at safe cuts.** -/
 theorem seqRun_total : ∀ (cs : List Bytes) (s s' : HtmlSt) (o : Bytes), cs ≠ [] → SafeRun tk ev s cs →
